@@ -24,9 +24,10 @@ type BCESite struct {
 	File string // module-relative
 	Line int
 	Col  int
-	Kind string // IsInBounds | IsSliceInBounds
-	Func string // enclosing function (resolved from the syntax tree)
-	Expr string // the indexed / sliced expression, printed from the syntax tree
+	Kind string    // IsInBounds | IsSliceInBounds
+	Func string    // enclosing function (resolved from the syntax tree)
+	Expr string    // the indexed / sliced expression, printed from the syntax tree
+	Pos  token.Pos // position of the '[' (matches the SSA instruction's position); NoPos if unknown
 }
 
 var bceRe = regexp.MustCompile(`^(.*\.go):(\d+):(\d+): Found (IsInBounds|IsSliceInBounds)`)
@@ -121,7 +122,25 @@ func (p *Prog) locateBCE(s *BCESite) {
 				return true
 			})
 			s.Func = fn
+			if best == nil {
+				// inlined library code: report the innermost call expression spanning the column
+				ast.Inspect(f, func(n ast.Node) bool {
+					if call, ok := n.(*ast.CallExpr); ok {
+						a, b := p.Fset.Position(call.Pos()), p.Fset.Position(call.End())
+						if a.Line == s.Line && b.Line == s.Line && a.Column <= s.Col && s.Col <= b.Column {
+							best = call
+						}
+					}
+					return true
+				})
+			}
 			if best != nil {
+				switch x := best.(type) {
+				case *ast.IndexExpr:
+					s.Pos = x.Lbrack
+				case *ast.SliceExpr:
+					s.Pos = x.Lbrack
+				}
 				var buf bytes.Buffer
 				_ = printer.Fprint(&buf, p.Fset, best)
 				s.Expr = buf.String()
@@ -240,7 +259,7 @@ func PanicSites(fn *ssa.Function) []PanicSite {
 					}
 				}
 			}
-			if obj.Pkg() != nil && obj.Pkg().Path() == "reflect" {
+			if obj.Pkg() != nil && obj.Pkg().Path() == "reflect" && !cc.IsInvoke() && len(cc.Args) > 0 {
 				if sig, ok := obj.Type().(*types.Signature); ok && sig.Recv() != nil && reflectPartial[obj.Name()] {
 					out = append(out, PanicSite{"call:" + full, in, full + " panics on the zero Value / wrong kind: receiver " + Render(cc.Args[0], 3)})
 				}
@@ -317,7 +336,30 @@ func classifyLoop(l *Loop) {
 		// counted: phi compared with a constant, phi = [c0, phi + step]
 		for _, side := range []ssa.Value{bin.X, bin.Y} {
 			phi, ok := side.(*ssa.Phi)
-			if !ok || !l.Blocks[phi.Block()] {
+			if !ok {
+				// range-over-slice shape: (phi + 1) < len
+				if inc, isInc := side.(*ssa.BinOp); isInc && inc.Op == token.ADD {
+					if p2, isPhi := inc.X.(*ssa.Phi); isPhi && l.Blocks[p2.Block()] {
+						if st, isC := ConstInt(inc.Y); isC && st > 0 && side == bin.X && (bin.Op == token.LSS || bin.Op == token.LEQ) {
+							other := bin.Y
+							_, isK := ConstInt(other)
+							feeds := false
+							for _, e := range p2.Edges {
+								if e == ssa.Value(inc) {
+									feeds = true
+								}
+							}
+							if feeds && (isK || isLenOf(other)) {
+								l.Class = "len-bounded"
+								l.Detail = "range index advances by a positive constant while below " + Render(other, 3)
+								return
+							}
+						}
+					}
+				}
+				continue
+			}
+			if !l.Blocks[phi.Block()] {
 				continue
 			}
 			other := bin.Y
@@ -458,4 +500,33 @@ func derivesFromPhi2(v ssa.Value, phi *ssa.Phi, depth int) bool {
 		}
 	}
 	return false
+}
+
+// InstrAt finds the index/slice/lookup instruction whose position is pos.
+func (p *Prog) InstrAt(pos token.Pos) ssa.Instruction {
+	if !pos.IsValid() {
+		return nil
+	}
+	var found ssa.Instruction
+	for fn := range p.AllFunctions() {
+		if found != nil {
+			break
+		}
+		if len(fn.Blocks) == 0 || fn.Pos() > pos {
+			continue
+		}
+		if fn.Syntax() != nil && (fn.Syntax().Pos() > pos || fn.Syntax().End() < pos) {
+			continue
+		}
+		Instrs(fn, func(in ssa.Instruction) {
+			if found != nil || in.Pos() != pos {
+				return
+			}
+			switch in.(type) {
+			case *ssa.IndexAddr, *ssa.Index, *ssa.Lookup, *ssa.Slice:
+				found = in
+			}
+		})
+	}
+	return found
 }
